@@ -322,12 +322,14 @@ Section RT.
   Proof.
     intros H12.
     assert (E : frame p ty ++ rest = dec_N (blen p) ++ x3a :: (p ++ ty :: rest)) by (unfold frame; norm_app).
-    rewrite E. unfold load.
+    rewrite E.
+    pose proof (dec_N_digits (blen p)) as HF. pose proof (digits_val_dec_N (blen p)) as HV.
     destruct (dec_N (blen p)) as [|c r] eqn:Ed; [now apply dec_N_nonempty in Ed|].
-    rewrite <- Ed. assert (Ec : dec_N (blen p) ++ x3a :: p ++ ty :: rest = c :: (r ++ x3a :: p ++ ty :: rest))
-      by (rewrite Ed; reflexivity).
-    rewrite Ec at 1. rewrite read_len_digits by (auto using dec_N_digits; lia).
-    rewrite Ed at 1. rewrite <- Ed. rewrite digits_val_dec_N, takeN_app, dropN_app. reflexivity.
+    change ((c :: r) ++ x3a :: p ++ ty :: rest) with (c :: (r ++ x3a :: p ++ ty :: rest)).
+    unfold load.
+    change (c :: r ++ x3a :: p ++ ty :: rest) with ((c :: r) ++ x3a :: p ++ ty :: rest).
+    rewrite read_len_digits by (auto; cbn [length] in *; lia).
+    rewrite HV, takeN_app, dropN_app. reflexivity.
   Qed.
 
   Theorem load_dumps v depth rest : wf v -> top_ok v -> (height v <= depth)%nat ->
@@ -351,7 +353,7 @@ Section RT.
     pose proof (pop_dumps v1 W1 (S (Nat.max (height v1) (height v2))) rest ltac:(lia)) as P1.
     pose proof (pop_dumps v2 W2 (S (Nat.max (height v1) (height v2))) [] ltac:(lia)) as P2.
     rewrite app_nil_r, <- !dumps_is_spec, E in P2. rewrite <- dumps_is_spec in P1.
-    rewrite P1 in P2. inversion P2 as [[Em Er]]. split; [|exact Er].
+    rewrite P1 in P2. injection P2 as Em Er. split; [|exact Er].
     rewrite <- (mirror_involutive v1), <- (mirror_involutive v2). now rewrite Em.
   Qed.
 
